@@ -205,6 +205,51 @@ func c16Routes(f string, isF bool, args []interface{}, seen func([]byte)) string
 				}})
 			}
 		}
+		if pi == 0 && utf8.Valid(ref) {
+			// ... nor on the ENTRY POINT through which the SafeFormat method was reached: whatever a top-level call
+			// permits for its own format (%w under HelperForErrorf) or keeps in its printer is not inherited
+			nested := func() redact.SafeFormatter {
+				return scriptedFn(func(p redact.SafePrinter) {
+					if isF {
+						p.Printf(f, args...)
+					} else {
+						p.Print(args...)
+					}
+				})
+			}
+			type rt = struct {
+				name string
+				run  func() []byte
+			}
+			routes = append(routes,
+				rt{"SafePrinter inside SafeFormat reached from HelperForErrorf(%v)", func() []byte {
+					t, _ := redact.HelperForErrorf("%v", nested())
+					return []byte(t)
+				}},
+				rt{"SafePrinter inside SafeFormat reached from HelperForErrorf(%w%v, err, sf)", func() []byte {
+					t, _ := redact.HelperForErrorf("%w%v", safeErrT{"E"}, nested())
+					return bytes.TrimPrefix([]byte(t), []byte("E<E>"))
+				}},
+				rt{"SafePrinter inside SafeFormat reached from Fprintf", func() []byte {
+					var w tstWriter
+					redact.Fprintf(&w, "%v", nested())
+					return bytes.Join(w.writes, nil)
+				}},
+				rt{"SafePrinter inside SafeFormat reached from StringBuilder.Printf", func() []byte {
+					var b redact.StringBuilder
+					b.Printf("%v", nested())
+					return []byte(b.RedactableString())
+				}},
+				rt{"SafePrinter inside SafeFormat reached from Sprintfn→Print", func() []byte {
+					return []byte(redact.Sprintfn(func(p redact.SafePrinter) { p.Print(nested()) }))
+				}},
+				rt{"SafePrinter inside SafeFormat reached from JoinTo(StringBuilder)", func() []byte {
+					var b redact.StringBuilder
+					redact.JoinTo(&b, ",", []redact.SafeFormatter{nested()})
+					return []byte(b.RedactableString())
+				}},
+			)
+		}
 		for _, r := range routes {
 			var got []byte
 			if pv, pan := recoverTo(func() { got = r.run() }); pan {
